@@ -6,7 +6,9 @@ import (
 	"go/constant"
 	"go/token"
 	"go/types"
+	"os"
 	"strings"
+	"unicode/utf8"
 
 	"golang.org/x/tools/go/ssa"
 
@@ -266,6 +268,10 @@ var ruleBOMTable = &core.Rule{ID: "R07.3", Min: 7,
 		cm := getCharset(c)
 		if cm.bomSwitch {
 			bomSwitchCheck(c, s, cm.bomFn)
+			return
+		}
+		if cm.bomFn == nil && cm.bomWrong != nil {
+			s.Bad("lookup shape", c.Pos(cm.bomWrong.Pos()), fmt.Sprintf("the table of byte-order marks is matched against the input with bytes.%s instead of bytes.HasPrefix: a mark is a mark only at the very start of the content; elsewhere the same bytes are data (binary files containing EF BB BF or FF FE would be taken for text)", cm.bomWrong.Call.StaticCallee().Name()))
 			return
 		}
 		if cm.bomFn == nil || !cm.bomsOK {
@@ -1120,6 +1126,28 @@ var ruleTrim = &core.Rule{ID: "R11.5", Min: 2,
 						}
 					}
 					s.Check(ok, key, c.Pos(x.Pos()), "under !utf8.FullRune(tail)", "the buffer validated as UTF-8 is shortened without checking that the dropped tail is an incomplete rune: text ending in a complete multi-byte character loses it and is not recognised as UTF-8")
+					// the cut is live code: no condition on the way to it is constantly false
+					for _, de := range core.DominatingConds(x.Block()) {
+						cond, val := core.StripNot(de.Cond, de.Val)
+						if k, isK := core.ConstBool(cond); isK && k != val {
+							n++
+							s.Bad(fmt.Sprintf("re-slice #%d is reachable", n-1), c.Pos(x.Pos()), "the cut of an incomplete final character lies behind a condition that is constantly "+fmt.Sprint(k)+": it is never made, and text cut inside a multi-byte character fails validation and loses charset=utf-8")
+						}
+					}
+					// and the search for that rune start looks at the last three bytes: a four-byte character can be cut
+					// after its third byte
+					if ok {
+						n++
+						wkey := fmt.Sprintf("look-back window of re-slice #%d", n-1)
+						switch seenBytes, why := lookBackWindow(c, x); {
+						case why != "":
+							s.Und(wkey, c.Pos(x.Pos()), why)
+						case seenBytes < utf8.UTFMax-1:
+							s.Bad(wkey, c.Pos(x.Pos()), fmt.Sprintf("the search for the start of a cut-off final character looks at the last %d byte(s) only: a %d-byte character cut after its %s byte is not dropped, the text fails validation and loses charset=utf-8", seenBytes, seenBytes+2, map[int]string{1: "first", 2: "second", 3: "third"}[seenBytes+1]))
+						default:
+							s.OK(wkey, c.Pos(x.Pos()), fmt.Sprintf("%d trailing continuation bytes are stepped over", seenBytes))
+						}
+					}
 				}
 				visit(x.X, seen)
 			default:
@@ -1129,6 +1157,101 @@ var ruleTrim = &core.Rule{ID: "R11.5", Min: 2,
 		}
 		visit(p.valid.Call.Args[0], map[ssa.Value]bool{})
 	}}
+
+// lookBackWindow evaluates the loop that searches the end of the buffer for the start of a cut-off character, on a
+// buffer of 16 continuation bytes: how many of them does it step over before it gives up? (0 when the cut is not made
+// in a loop over a position.)
+func lookBackWindow(c *core.Ctx, cut *ssa.Slice) (int, string) {
+	g := cut.Parent()
+	var pos *ssa.Phi
+	var find func(v ssa.Value, d int)
+	find = func(v ssa.Value, d int) {
+		if pos != nil || d > 4 {
+			return
+		}
+		switch x := v.(type) {
+		case *ssa.Phi:
+			pos = x
+		case *ssa.BinOp:
+			find(x.X, d+1)
+			find(x.Y, d+1)
+		case *ssa.Convert:
+			find(x.X, d+1)
+		}
+	}
+	find(cut.High, 0)
+	if pos == nil {
+		return 0, "the cut position is not a loop variable: the look-back window is not decided"
+	}
+	h := pos.Block()
+	body := loopBlocks(h)
+	if len(body) < 2 {
+		return 0, "the cut position is not a loop variable: the look-back window is not decided"
+	}
+	var pre *ssa.BasicBlock
+	for _, p := range h.Preds {
+		if !body[p] {
+			pre = p
+		}
+	}
+	if pre == nil {
+		return 0, "loop without an entry edge"
+	}
+	const n = 16
+	ev := newEval(c)
+	ev.Env = fde.Env{}
+	loadBlocks := map[*ssa.BasicBlock]bool{}
+	for _, b := range g.Blocks {
+		for _, in := range b.Instrs {
+			switch x := in.(type) {
+			case *ssa.Call:
+				if core.IsBuiltin(&x.Call, "len") && core.IsByteSlice(x.Call.Args[0].Type()) {
+					ev.Env[x] = constant.MakeInt64(n)
+				}
+				if core.CalleeIs(&x.Call, "unicode/utf8", "RuneStart") && body[b] {
+					ev.Env[x] = constant.MakeBool(false)
+				}
+			case *ssa.UnOp:
+				if ia, ok := x.X.(*ssa.IndexAddr); ok && x.Op == token.MUL && body[b] && core.IsByteSlice(ia.X.Type()) {
+					ev.Env[x] = constant.MakeInt64(0x80)
+					loadBlocks[b] = true
+				}
+			}
+		}
+	}
+	if len(loadBlocks) == 0 {
+		return 0, "no byte of the buffer is read in the look-back loop"
+	}
+	after := core.Reach(h)
+	if os.Getenv("MTVERIF_DEBUG") != "" {
+		for k, v := range ev.Env {
+			fmt.Fprintln(os.Stderr, "R11.5 pinned", k.Name(), k, v)
+		}
+		for b := range body {
+			fmt.Fprintln(os.Stderr, "R11.5 body block", b.Index)
+		}
+	}
+	exits, err := ev.Walk(g.Blocks[0], nil, func(b *ssa.BasicBlock) bool { return !body[b] && after[b] }, 6)
+	if err != nil || len(exits) == 0 {
+		return 0, fmt.Sprintf("the look-back loop does not evaluate on a buffer of continuation bytes (%v)", err)
+	}
+	best := 0
+	for _, x := range exits {
+		if x.Stop == nil {
+			continue
+		}
+		k := 0
+		for _, b := range x.Path {
+			if loadBlocks[b] {
+				k++
+			}
+		}
+		if k > best {
+			best = k
+		}
+	}
+	return best, ""
+}
 
 // R11.6
 var ruleLatin = &core.Rule{ID: "R11.6", Min: 256,
